@@ -21,7 +21,7 @@ import (
 
 // Scenario is one transfer/close choreography.
 type Scenario struct {
-	Kind string `json:"kind"` // oneway | simultaneous | halfclose | zerowindow | idle
+	Kind string `json:"kind"` // oneway | simultaneous | halfclose | zerowindow | idle | closeearly | bursts
 	AtoB int    `json:"a_to_b"`
 	BtoA int    `json:"b_to_a"`
 }
@@ -145,6 +145,18 @@ type Result struct {
 
 // write sends data then shuts the write side down.
 func (s *side) writeAll(data []byte, stop <-chan struct{}) {
+	if !s.writePart(data, stop) {
+		return
+	}
+	if err := s.sock.EP.Shutdown(tcpip.ShutdownWrite); err != nil {
+		s.werr = err
+		return
+	}
+	s.shutdown = true
+}
+
+// writePart writes data without closing; false if the write failed or was stopped.
+func (s *side) writePart(data []byte, stop <-chan struct{}) bool {
 	rem := data
 	for len(rem) > 0 {
 		n, err, ok := s.sock.Write(rem, 2*time.Second)
@@ -153,21 +165,17 @@ func (s *side) writeAll(data []byte, stop <-chan struct{}) {
 		rem = rem[n:]
 		if err != nil {
 			s.werr = err
-			return
+			return false
 		}
 		if !ok {
 			select {
 			case <-stop:
-				return
+				return false
 			default:
 			}
 		}
 	}
-	if err := s.sock.EP.Shutdown(tcpip.ShutdownWrite); err != nil {
-		s.werr = err
-		return
-	}
-	s.shutdown = true
+	return true
 }
 
 // readAll reads until end of stream, an error or stop.
@@ -284,6 +292,22 @@ func runOnce(c Case) Result {
 		// the established connection sits idle (with keep-alive configured this is when the
 		// probes run), then behaves like "oneway"
 		run(func() { time.Sleep(120 * time.Millisecond); A.writeAll(wantAB, stop) })
+		run(func() { B.readAll(stop); B.writeAll(wantBA, stop) })
+		run(func() { A.readAll(stop) })
+	case "bursts":
+		// A sends its part in three bursts with pauses longer than the retransmission timeout in
+		// between (1.3 s, above the initial 1 s; 0.4 s, above the 200 ms floor): every burst starts
+		// on a connection whose timers have run out while it was idle. Then like "oneway".
+		run(func() {
+			n := len(wantAB)
+			if A.writePart(wantAB[:n/3], stop) {
+				time.Sleep(1300 * time.Millisecond)
+				if A.writePart(wantAB[n/3:2*n/3], stop) {
+					time.Sleep(400 * time.Millisecond)
+					A.writeAll(wantAB[2*n/3:], stop)
+				}
+			}
+		})
 		run(func() { B.readAll(stop); B.writeAll(wantBA, stop) })
 		run(func() { A.readAll(stop) })
 	case "halfclose":
